@@ -129,7 +129,7 @@ def one(cid, cfg, rng, cases, meta, viol, do_oracle):
     tot, terms = evaluate(cfg)
     if not cfg.get("dyn", True):
         cfg = dict(cfg)  # the model's dynamic term is compared only when the part is configured
-    cases.append(case_term(cid, dict(cfg, **({} if cfg.get("dyn", True) else {"res": [({(0,) * nvars(cfg["kind"], cfg["dim"]): 0}, 0)], "w_dyn": 1.0})), tot, terms))
+    cases.append(case_term(cid, dict(cfg, **({} if cfg.get("dyn", True) else {"res": [({(0,) * nvars(cfg["kind"], cfg["dim"]): 0}, 0)], "w_dyn": 1.0, "het_c": None})), tot, terms))
     meta[cid] = jsonable(cfg)
     for k in absent_terms(cfg):
         if k in terms and terms[k] != 0.0:
